@@ -223,7 +223,11 @@ class Hub:
             # a call the labelling has no entry for: what it returns is unknown - but if client-controlled data goes in, the
             # result is treated as client-controlled too (`String::from_utf8_lossy(&hash[..6])`)
             out = {OTHER}
-            if o.bb is not None:
+            rty = ''
+            if o.bb is not None and isinstance(body.blocks[o.bb]['term'].get('dst'), dict) and not body.blocks[o.bb]['term']['dst'].get('proj'):
+                rty = body.local_ty(body.blocks[o.bb]['term']['dst']['l'])
+            textual = any(x in rty for x in ('str', 'String', 'Path', 'OsStr', 'Vec<u8>', '[u8]'))
+            if o.bb is not None and textual:
                 for a in body.blocks[o.bb]['term'].get('args', []):
                     if TAINT in self.label_operand(body, a, depth + 1, self._seen):
                         out.add(TAINT)
